@@ -157,7 +157,7 @@ def roundtrip_check(mask, var, mask2, var2, kind, amount, unit):
 def ob_roundtrip(mask: int, var: int, mask2: int, var2: int, kind: int, amount: int, unit: int) -> bool:
     """
     pre: 0 <= mask < 128 and 0 <= var < 3 and 0 <= mask2 < 128 and 0 <= var2 < 3 and 0 <= kind <= 2 and 0 <= amount <= 2 and 0 <= unit < 6
-    pre: (kind == 1 or (mask2 == 127 and var2 == 2)) and (kind == 2 or (amount == 0 and unit == 0)) and (kind != 1 or mask2 in (0, 7, 24, 31, 127))
+    pre: (kind == 1 or (mask2 == 127 and var2 == 2)) and (kind == 2 or (amount == 0 and unit == 0)) and (kind != 1 or (mask2 in (7, 24, 31, 127) and mask in (7, 24, 31, 127)))
     pre: kind != 2 or (mask == 0 and var == 0)
     post: _
     """
